@@ -659,6 +659,9 @@ static const void *get_setup_template(long ch,long srate,
           float high=map[j+1];
           float del=(req-low)/(high-low);
           *base_setting=j+del;
+          /* float rounding can push the interpolated setting up to
+             j+1, i.e. past this template's last mapping */
+          if(*base_setting>=j+1)*base_setting=j+1-.001;
         }
 
         return(setup_list[i]);
